@@ -139,6 +139,7 @@ type Alloc struct {
 	freedList          []*block
 	fmu                sync.Mutex
 	yield              func() // optional scheduling perturbation called inside Malloc/Free
+	onFree             atomic.Value // func(unsafe.Pointer, int): called before a valid free takes effect
 	guardedFreesAtExit int64
 }
 
@@ -163,6 +164,10 @@ func New(mode Mode) *Alloc {
 }
 
 func (a *Alloc) Mode() Mode { return a.mode }
+
+// SetOnFree installs a callback invoked for every valid free before the block
+// is poisoned / unmapped (used to monitor "not released while still linked").
+func (a *Alloc) SetOnFree(f func(p unsafe.Pointer, size int)) { a.onFree.Store(f) }
 
 // SetYield installs a callback invoked at the start of every Malloc and Free
 // (a hook-free yield point inside nitro's allocation paths).
@@ -306,6 +311,9 @@ func (a *Alloc) Free(p unsafe.Pointer) {
 		return
 	}
 	b.fstack = pcs
+	if f, _ := a.onFree.Load().(func(unsafe.Pointer, int)); f != nil {
+		f(p, b.size)
+	}
 	atomic.AddInt64(&a.NFrees, 1)
 	atomic.AddInt64(&a.liveCount, -1)
 	if b.pages != 0 {
